@@ -33,6 +33,8 @@ def D(e, f, u_const=False):
         return C(0)
     if op == 'x':
         return f[e.a[0]]
+    if op == 'q':
+        return f.quads[e.a[0]]       # a declared quadrature state: its derivative is its integrand (f is an FList)
     if op == 't':
         return C(1)
     if op in ('p', 'v', 'T', 't0'):
@@ -53,6 +55,11 @@ def D(e, f, u_const=False):
             return C(0)
         return C(n) * E('pow', e.a[0], n - 1) * D(e.a[0], f, u_const)
     raise Unsupported('reference derivative of %s' % op)
+
+
+class FList(list):
+    """right-hand sides of the states, with the integrands of the declared quadrature states as attribute"""
+    quads = ()
 
 
 def rpoly(rng, lv, depth=2):
@@ -85,6 +92,12 @@ def instances(tier, seed):
                 continue
             add(kind='expr', spec=m, exprs=[e])
         add(kind='expr', spec=m, exprs=[X(0) * t, X(1) - t * t])         # vector valued
+        # a declared quadrature state inside the expression: its derivative is its integrand
+        mq = copy.deepcopy(m)
+        mq.quads = [X(0) * X(0) + t]
+        from ..dsl import Q
+        add(kind='expr', spec=mq, exprs=[Q(0)])
+        add(kind='expr', spec=mq, exprs=[Q(0) * X(1) + t * Q(0), X(0) - Q(0) * Q(0)])
         add(kind='control-dependence', spec=m)
     n = 12 if tier == 'quick' else 150
     for i in range(n):
@@ -285,14 +298,14 @@ def run(item):
             dm = st.der(m)
         except Exception as ex:
             return {'stats': stats, 'obligations': 1, 'discharged': 0, 'status': 'violation', 'violations': [{'property': PROP, 'key': 'raises|der', 'label': repr(exprs), 'detail': 'ocp.der raised on a state/time/parameter expression: %s' % str(ex)[:200]}]}
-    syms = list(b.xs) + list(b.us) + [b.psym[p.name] for p in spec.params] + [b.vsym[v.name] for v in spec.vars] + [st.t]
+    syms = list(b.xs) + list(b.us) + [b.psym[p.name] for p in spec.params] + [b.vsym[v.name] for v in spec.vars] + list(b.qs) + [st.t]
     prog = SXProgram(syms, [dm])
     prog.selfcheck(rng)
     pool = ConstPool()
     zdom = Z3Domain(pool)
     rdom = RefZ3Domain(zdom)
     fdom = FloatDomain()
-    names = ['x%d' % i for i in range(len(b.xs))] + ['u%d' % i for i in range(len(b.us))] + ['p_' + p.name for p in spec.params] + ['v_' + v.name for v in spec.vars] + ['t']
+    names = ['x%d' % i for i in range(len(b.xs))] + ['u%d' % i for i in range(len(b.us))] + ['p_' + p.name for p in spec.params] + ['v_' + v.name for v in spec.vars] + ['q%d' % i for i in range(len(b.qs))] + ['t']
     zin = [[z3.Real('%s_%d' % (nm, j)) for j in range(s.numel())] for nm, s in zip(names, syms)]
     zout = prog.run(zdom, zin)[0]
 
@@ -304,6 +317,8 @@ def run(item):
         pd = {p.name: vals[off + i] for i, p in enumerate(spec.params)}
         off += len(spec.params)
         vd = {v.name: vals[off + i] for i, v in enumerate(spec.vars)}
+        off += len(spec.vars)
+        qd = [vals[off + i][0] for i in range(len(b.qs))]
         tv = vals[-1][0]
 
         def leaf(op, a):
@@ -317,6 +332,8 @@ def run(item):
                 return wrap(vd[a[0]][a[1]])
             if op == 't':
                 return wrap(tv)
+            if op == 'q':
+                return wrap(qd[a[0]])
             raise KeyError(op)
         return leaf
     s = z3.Solver()
@@ -325,7 +342,9 @@ def run(item):
     pts = [[[rng.uniform(0.2, 0.9) for _ in range(sy.numel())] for sy in syms] for _ in range(3)]
     fouts = [prog.run(fdom, p)[0] for p in pts]
     for j, e in enumerate(exprs):
-        de = D(e, list(spec.ode))
+        fl_ = FList(spec.ode)
+        fl_.quads = list(spec.quads)
+        de = D(e, fl_)
         ref_z = ev(de, mk_leaf(zin, rdom.wrap), rdom)
         lab = 'der(%r)' % e
         bad = None
@@ -355,7 +374,9 @@ def run(item):
         def Dnot(e, f):
             return D(e, f)
         import rv.props.c16 as me
-        de = D(E('+', e0, C(0)), list(spec.ode))
+        fl0_ = FList(spec.ode)
+        fl0_.quads = list(spec.quads)
+        de = D(E('+', e0, C(0)), fl0_)
         # drop d/dt: evaluate reference with t treated as constant
         def Dc(e):
             if e.op == 't':
@@ -364,6 +385,8 @@ def run(item):
                 return C(0)
             if e.op == 'x':
                 return spec.ode[e.a[0]]
+            if e.op == 'q':
+                return spec.quads[e.a[0]]
             if e.op in '+-':
                 return E(e.op, Dc(e.a[0]), Dc(e.a[1]))
             if e.op == 'neg':
@@ -376,7 +399,7 @@ def run(item):
                 return C(e.a[1]) * E('pow', e.a[0], e.a[1] - 1) * Dc(e.a[0]) if e.a[1] else C(0)
             raise Unsupported(e.op)
         rf = [ev(Dc(e0), mk_leaf(p, lambda v: v), fdom) for p in pts]
-        rt = [ev(D(e0, list(spec.ode)), mk_leaf(p, lambda v: v), fdom) for p in pts]
+        rt = [ev(D(e0, fl0_), mk_leaf(p, lambda v: v), fdom) for p in pts]
         if any(abs(a - c_) > 1e-9 for a, c_ in zip(rf, rt)):      # the partial time derivative really contributes
             if any(abs(a - fo[0]) > 1e-9 for a, fo in zip(rf, fouts)):
                 twins_ok += 1
